@@ -790,7 +790,30 @@ func runHistory(cfg *config, id int, r *hx.Rng, o histOpts) {
 		if o.pFail > 0 && r.Intn(100) < o.pFail {
 			// refused before anything is changed: oversize row, wrong type, out-of-range INT, wrong arity, unknown table
 			row := genRowValues(r, t, false)
-			switch r.Intn(5) {
+			switch r.Intn(8) {
+			case 5, 6, 7:
+				// a refused UPDATE (a value its column does not admit, or one that makes every row too
+				// large): the rows read back afterwards are the rows before it
+				var q string
+				for _, c := range t.cols {
+					switch {
+					case c.ty == "int" && r.Bool():
+						q = fmt.Sprintf("UPDATE %s SET %s = 'text'", t.name, c.name)
+					case c.ty == "int":
+						q = fmt.Sprintf("UPDATE %s SET %s = 2147483648", t.name, c.name)
+					case c.ty == "varchar":
+						q = fmt.Sprintf("UPDATE %s SET %s = '%s'", t.name, c.name, strings.Repeat("u", 401))
+					case c.ty == "boolean":
+						q = fmt.Sprintf("UPDATE %s SET %s = 7", t.name, c.name)
+					}
+					if q != "" && r.Bool() {
+						break
+					}
+				}
+				if q != "" {
+					d.stmt(q)
+					d.selectAll(t.name)
+				}
 			case 0:
 				for i, c := range t.cols {
 					if c.ty == "varchar" {
@@ -1169,7 +1192,8 @@ func runDB(cfg *config) {
 		for i := 0; i < n; i++ {
 			id++
 			rr := r.Fork()
-			o := histOpts{stmts: rr.Range(5, 60), maxTables: 5, maxCols: 8, maxRows: 12, bigValues: rr.Bool(), pFlush: 10, pReopen: 5, dumpEvery: 7, selectEvery: 3}
+			o := histOpts{stmts: rr.Range(5, 60), maxTables: 5, maxCols: 8, maxRows: 12, bigValues: rr.Bool(), pFlush: 10, pReopen: 5, dumpEvery: 7, selectEvery: 3,
+				pFail: []int{0, 10, 25}[rr.Intn(3)]}
 			if cfg.tier == "thorough" && i%8 == 0 {
 				o = histOpts{stmts: 260, maxTables: 12, maxCols: 11, maxRows: 12, pFlush: 5, pReopen: 2, dumpEvery: 60, selectEvery: 40}
 			}
